@@ -1,15 +1,15 @@
 // Environment of unit `fallback`: opaque types and ASSUMED contracts for
 // everything `Run::repository` calls that is not extracted.
 
-struct Https;
-struct RsyncUri;
-struct RunFailed;
-struct ReadRepository;
-struct RrdpCollector;
-struct RsyncCollector;
-struct CaCert;
-struct RrdpRun<'a> { _p: &'a RrdpCollector }
-struct RsyncRun<'a> { _p: &'a RsyncCollector }
+#[verifier::external_body] pub struct Https { _opaque: () }
+#[verifier::external_body] pub struct RsyncUri { _opaque: () }
+#[verifier::external_body] pub struct RunFailed { _opaque: () }
+#[verifier::external_body] pub struct ReadRepository { _opaque: () }
+#[verifier::external_body] pub struct RrdpCollector { _opaque: () }
+#[verifier::external_body] pub struct RsyncCollector { _opaque: () }
+#[verifier::external_body] pub struct CaCert { _opaque: () }
+#[verifier::external_body] pub struct RrdpRun<'a> { _p: &'a RrdpCollector }
+#[verifier::external_body] pub struct RsyncRun<'a> { _p: &'a RsyncCollector }
 
 impl CaCert {
     uninterp spec fn notify_spec(&self) -> Option<&Https>;
